@@ -27,7 +27,7 @@ func runDev(id string) int {
 	}
 	effects.Of(prog)
 	rules.InstallPredicates(prog)
-	res := rule.Run(prog)
+	res := runWithRoles(*rule, prog)
 	res.DedupKeys()
 	for _, o := range res.Obligations {
 		fmt.Printf("%-11s %-26s %-38s %s | %s %s\n", o.Status, o.Pos, o.Func, o.What, o.By, o.Detail)
